@@ -16,7 +16,7 @@ from ..model import AnalysisError
 from ..terms import T, walk_terms
 from ..absint import AV, TOP, cav
 from ..walk import (data_derives, ret_alts, call_parts, call_arg, is_call_to, const_val, NOVAL, strip_views, unwrap_gamma, callee_func,
-                    callee_name, axis_uses, norm_stmt)
+                    callee_name, axis_uses, norm_stmt, newaxis_insertions, loop_role)
 from .. import ein
 from . import c11
 
@@ -156,8 +156,9 @@ def documented_ellipsis(fn):
 
 # uses of a non-negative literal axis that are correct for any number of leading axes (one line of reason each)
 AXIS_EXCEPTIONS = {
-    (B + 'get_mvdr_vector', 'numpy.expand_dims'): 'front-broadcast of the noise PSD against extra leading axes of the steering vectors',
+    (B + 'get_mvdr_vector', 'newaxis'): 'front-broadcast of the noise PSD against extra leading axes of the steering vectors',
     (B + 'get_lcmv_vector', 'numpy.repeat'): 'documented fixed layout (targets, bins, sensors)',
+    (B + 'get_lcmv_vector', 'newaxis'): 'documented fixed layout (targets, bins, sensors)',
     (B + 'get_gev_vector', 'numpy.argmax'): 'result of the Cython c_eig extension (fixed (bins, sensors) layout); the extension is not built / analysed here',
 }
 
@@ -187,6 +188,21 @@ def check_ell(run, A):
             run.check(not bad, 'R-ELL', f'{short}: {name.split(".")[-1]}(axis={v}) counts from the right', fn.loc(t.node), '',
                       f'`{norm_stmt(t.node)}`: a non-negative axis on an array documented with leading `...` axes addresses a different axis as soon as a leading axis is present',
                       construct=f'R-ELL::{fn.qual}::axis::{name}')
+        # inserted axes: x[:, None] / np.expand_dims(x, 1) count from the left as well
+        seen = set()
+        for r in [g.ret] + [e.term for e in g.events if e.term is not None]:
+            for t in walk_terms(r, seen):
+                ins = newaxis_insertions(t) if t.op == 'sub' else None
+                if ins is None:
+                    continue
+                n += 1
+                bad = [x for x in ins[1] if x >= 0]
+                if bad and (fn.qual, 'newaxis') in AXIS_EXCEPTIONS:
+                    run.ok('R-ELL', f'{short}: inserted axis at {ins[1]} [listed exception]', fn.loc(t.node), AXIS_EXCEPTIONS[(fn.qual, 'newaxis')])
+                    continue
+                run.check(not bad, 'R-ELL', f'{short}: inserted axis {ins[1]} counts from the right', fn.loc(t.node), '',
+                          f'`{norm_stmt(t.node)}`: an axis inserted at a position counted from the left of an array documented with leading `...` axes '
+                          f'lands elsewhere as soon as a leading axis is present', construct=f'R-ELL::{fn.qual}::axis::newaxis')
     run.floor('literal axis uses in (..., )-documented beamforming functions', n, 12)
     # phase_correction: accumulate along the frequency axis (-2 of (..., bins, sensors))
     q = B + 'phase_correction'
@@ -219,16 +235,14 @@ def check_stable_solve(run, A):
     why = []
     loopvar = None
     for e in stores:
-        idx = strip_views(e.term.args[1])
-        if idx.op != 'elem' or idx.extra is not L:
+        r = loop_role(e.term.args[1], L)
+        if r is None or r[0] != 'index':
             ok = False
             why.append('the result is not stored at the loop index')
-        else:
-            loopvar = idx
     for e in solves:
         for a in (call_arg(e.term, 0), call_arg(e.term, 1)):
-            a = strip_views(a)
-            if not (a.op == 'sub' and strip_views(a.args[1]).op == 'elem' and strip_views(a.args[1]).extra is L):
+            r = loop_role(a, L)
+            if r is None or r[0] != 'slice':
                 ok = False
                 why.append('a per-matrix solve reads something else than the i-th slice')
     # per-matrix try/except: the lstsq fallback is inside a handler inside the loop
